@@ -79,11 +79,11 @@ impl Ctx {
             Some((IpResources::blocks(b), IpResources::missing(), AsResources::missing()))
         } else { None };
         let p = CertParams {
-            kind: "ee".into(), key: "e0".into(),
+            kind: if ee == "isca" { "ca".into() } else { "ee".into() }, key: "e0".into(),
             // the "ipinherit" object is issued by the AS-only CA (key k1)
             sig_key: if ee == "wrongissuer" { "k2".into() } else if cover == "ipinherit" { "k1".into() } else { "k0".into() },
             aki: if ee == "akibad" { "k2".into() } else if cover == "ipinherit" { "k1".into() } else { "k0".into() },
-            ski_ok: true, tamper: "none".into(), nb: 0, na: 2, policy: "refuse".into(), v4, v6, asn, serial: 4711, raw, validity: Some(validity),
+            ski_ok: ee != "skibad", tamper: "none".into(), nb: 0, na: 2, policy: "refuse".into(), v4, v6, asn, serial: 4711, raw, validity: Some(validity),
         };
         let d = build_cert(&self.pki, &p, &self.router);
         self.ee_cache.insert(key, d.clone());
@@ -177,6 +177,7 @@ pub fn assemble(ctx: &mut Ctx, c: &Value) -> (Vec<u8>, bool) {
     let mut signature = ctx.pki.signer.sign(&skey, rpki::crypto::RpkiSignatureAlgorithm::default(), &to_sign).unwrap().value().to_vec();
     if g("sig") == "bitflip" { let n = signature.len(); signature[n / 2] ^= 0x04; }
     let mut sid = ctx.pki.pubkey("e0").key_identifier().as_slice().to_vec();
+    if g("ee") == "skibad" { sid[19] ^= 0x01; }          // the signer identifier follows the certificate's (wrong) identifier
     if g("sid") == "bad" { sid[0] ^= 0x80; }
     let ee = ctx.ee_cert(kind, g("ee"), g("cover"));
     let bytes = signed_data(&SignedDataParts { content_type: ct_oid, content, attrs, certs: vec![ee], crls: vec![], sid, signature });
